@@ -14,7 +14,7 @@ ITW = [ # erase(iterator) in the middle of the extension list (traversal order: 
 
 
 def seqs(rnd, n, length):
-    ops = ['emp%d', 'era%d', 'fer%d', 'itmv%d', 'get%d', 'fnd%d', 'ext%d']
+    ops = ['emp%d', 'era%d', 'fer%d', 'itmv%d', 'get%d', 'fnd%d', 'ext%d', 'ftrav%d', 'ftrave%d']
     out = []
     for i in range(n):
         s = ['emp%d' % k for k in range(1, rnd.randint(4, 7))]
@@ -55,6 +55,14 @@ def run(ctx):
             for pos in range(size):
                 jobs.append('vy1%sc/hp3;;%s,trave%d,trav' % (m, ','.join('emp%d' % k for k in range(1, size + 1)), pos))
                 jobs.append('vy1%sc/ebr0;;%s,fer%d,emp%d,trav' % (m, ','.join('emp%d' % k for k in range(1, size + 1)), pos + 1, 7))
+        # traversals that START at find(k) (also on extension items: 128 buckets, colliding hash) and run to end(); erase of the element after it
+        for size in (2, 4, 5, 6):
+            fill = ','.join('emp%d' % k for k in range(1, size + 1))
+            for k in range(1, size + 1):
+                jobs.append('vy128%sc/hp3;;%s,ftrav%d,trav' % (m, fill, k))
+                jobs.append('vy1%sc/ebr0;;%s,ftrav%d,trav' % (m, fill, k))
+                if k < size:
+                    jobs.append('vy128%sc/ebr0;;%s,ftrave%d,trav' % (m, fill, k))
         for s in seqs(rnd, 6 if q else 80, 8):
             jobs.append('vy1%sc/%s;;%s' % (m, rnd.choice(RECL), s))
             jobs.append('vy4%sh/%s;;%s' % (m, rnd.choice(RECL), s))
